@@ -139,7 +139,7 @@ class LsSpec(netx.Spec):
         if world.exception is not None:
             if "C07" in self.props:
                 ev, et, msg, where = world.exception
-                report(f"C07|{self.algo}|handler-raised|{et}|{where[-1]}", f"{self.algo} {self.params} mode={self.mode}: event {ev} raised {et}: {msg} at {where}")
+                report(f"C07|{self.algo}|handler-raised|{et}|{netx.site(where)}", f"{self.algo} {self.params} mode={self.mode}: event {ev} raised {et}: {msg} at {where}")
             return
         if not ({"C03", "C04"} & self.props) or not self.active:
             return
